@@ -173,6 +173,17 @@ class Evolver:
                 decl["documentation"] = "Evolved declaration.\nSecond line with {@link Position} and `code`.\n@since 3.18.0"
         return marks
 
+    def keep_inhabitable(self, new_props: List[dict]) -> None:
+        """a required property must not close a reference cycle (the type would have no finite value)."""
+        m = Model(self.doc)
+        bad = any(m.min_depth({"kind": "reference", "name": s["name"]}) >= 10**5 for s in self.doc["structures"])
+        if bad:
+            for p in new_props:
+                p["optional"] = True
+            m = Model(self.doc)
+            if any(m.min_depth({"kind": "reference", "name": s["name"]}) >= 10**5 for s in self.doc["structures"]):
+                raise HarnessError("evolve produced an uninhabitable structure")
+
     # -- edits ------------------------------------------------------------------------
     def e_new_structure(self) -> None:
         name = self.fresh_type_name()
@@ -190,6 +201,7 @@ class Evolver:
             if parents[k:]:
                 s["mixins"] = [{"kind": "reference", "name": p} for p in parents[k:]]
         self.doc["structures"].append(s)
+        self.keep_inhabitable(s["properties"])
         self.new_structs.append(name)
         self.edits.append({"edit": "E1-new-structure", "name": name, "properties": [p["name"] for p in s["properties"]],
                            "extends": [x["name"] for x in s.get("extends", [])], "mixins": [x["name"] for x in s.get("mixins", [])]})
@@ -205,6 +217,7 @@ class Evolver:
                 local |= {p["name"] for p in m.flat_props(other["name"])}
         p = self.new_property(local)
         s["properties"].append(p)
+        self.keep_inhabitable([p])
         self.edits.append({"edit": "E2-new-property", "structure": s["name"], "property": p["name"], "type": p["type"], "optional": bool(p.get("optional"))})
 
     def e_new_enum(self) -> None:
